@@ -1473,3 +1473,34 @@ async fn d39_history_during_flush_lists_versions_twice() {
 	flusher.await.unwrap();
 	assert!(worst <= n, "D39: a history scan during the flush listed {worst} versions although only {n} exist ({scans} scans)");
 }
+
+// D7b: the torn tail is the ONLY content of the last segment (crash during the first record after a rotation): replay finds
+// no complete batch there.  The writer must still not append behind the stray bytes.
+#[tokio::test(flavor = "multi_thread")]
+async fn d7b_torn_first_record_of_a_fresh_segment() {
+	let d = td();
+	let opts = mk_opts(d.path().to_path_buf(), |o| o.flush_on_close = false);
+	{
+		let tree = Tree::new(Arc::clone(&opts)).unwrap();
+		put(&tree, b"k1", b"v1").await;
+		tree.flush().unwrap(); // rotates: the active segment is fresh
+		tree.close().await.unwrap();
+	}
+	{
+		use std::io::Write;
+		let p = last_wal(&opts);
+		let mut f = std::fs::OpenOptions::new().append(true).open(&p).unwrap();
+		f.write_all(&[0xde, 0xad, 0xbe]).unwrap(); // 3 bytes of a header that never completed
+		f.sync_all().unwrap();
+	}
+	{
+		let tree = Tree::new(Arc::clone(&opts)).unwrap();
+		put(&tree, b"k2", b"v2").await;
+		tree.flush_wal(true).unwrap();
+		tree.close().await.unwrap();
+	}
+	let tree = Tree::new(Arc::clone(&opts)).unwrap();
+	let tx = tree.begin().unwrap();
+	assert_eq!(tx.get(b"k1").unwrap().as_deref(), Some(&b"v1"[..]));
+	assert_eq!(tx.get(b"k2").unwrap().as_deref(), Some(&b"v2"[..]), "D7b: commit acknowledged after recovery from a torn first record is lost");
+}
